@@ -40,3 +40,20 @@ def spoolOld (sysTmp : Path) (name : String) (rest : World → World × Exit) (w
   rest ((sysTmp ++ [name]) :: w)
 
 end Pyndl.Effects
+
+namespace Pyndl.Effects
+
+/-- the concrete file-system effects of `ndl.ndl` / the `wh` flavours: chunk
+    files `events_0_<i>.dat` are created in the temporary directory `d`
+    (some of them may be removed again by the job that found no events), then
+    the learner returns or raises. -/
+def chunkBody (created : List String) (e : Exit) : Path → World → World × Exit :=
+  fun d w => (created.map (fun name => d ++ [name]) ++ w, e)
+
+/-- `ndl.ndl(events=<generator>)` after the repair of F7: a spool directory `s`
+    (bracket) that receives `events.tab.gz`, inside it the recursive call with its
+    own chunk directory `d` (a second bracket, created under the same parent). -/
+def generatorCall (s d : Path) (created : List String) (e : Exit) (w : World) : World × Exit :=
+  bracket s (fun s w => bracket d (chunkBody created e) ((s ++ ["events.tab.gz"]) :: w)) w
+
+end Pyndl.Effects
